@@ -28,7 +28,7 @@ Qed.
 
 (* creating a table that exists fails with ResourceInUse and changes nothing *)
 Theorem C18_create_existing_in_use :
-  forall s c ct, v1_name_ok s (ct_table ct) = true -> mem (ct_table ct) (c_tables c) = true -> create_table s c ct = (c, err_obs InUse).
+  forall s c ct, ct_names_ok s ct = true -> mem (ct_table ct) (c_tables c) = true -> create_table s c ct = (c, err_obs InUse).
 Proof. exact create_existing_in_use. Qed.
 
 (* a created table starts empty; its description is the description of that empty table *)
